@@ -1,8 +1,12 @@
-"""C06 -- accepted steps tile [t0,Tend] contiguously and chain their values exactly (engine: blocksim)."""
+"""C06 -- accepted steps tile [t0,Tend] contiguously and chain their values exactly (engines: blocksim, simmpi)."""
 import copy
 
-from sim.core.base import rng_for, Result, EventLog
-from sim import blocksim, workloads, oracles
+from sim import simmpi
+
+simmpi.install_fake_mpi()  # before any pySDC module that imports mpi4py is loaded in this process
+
+from sim.core.base import rng_for, Result, EventLog  # noqa: E402
+from sim import blocksim, workloads, oracles  # noqa: E402
 
 PROP = 'C06'
 LEVEL = 'exploration'
@@ -11,21 +15,22 @@ RULE = (
     'steps, Tend-t0 not a multiple of dt, up to 2000 steps, |t0| up to 1e9, Tend-t0<dt), P in 1..8, 1-3 levels, with restart '
     'requests and step-size proposals injected at scripted (block, slot) positions (control order 89, before BasicRestarting '
     'and the limiters). Accepted steps are reconstructed from pre_step/post_step observations and checked for tiling, chaining, '
-    'end time, returned value and step count. Non-trivial = at least 2 blocks or an injected fault fired; distinct = distinct digest.'
+    'end time, returned value and step count. 8 % of the runs drive the real controller_MPI instead (1-5 time ranks on the simulated MPI of C08, seeded schedule, the same scripts '
+    'without forced stops): the observations of all ranks are merged and judged by the same oracle. 6 % drive controller_ParaDiag_nonMPI. Non-trivial = at least 2 blocks or an injected fault fired; distinct = distinct digest.'
 )
 COMPONENTS_REAL = [
     'controller_nonMPI.run/restart_block/pfasst', 'Step.init_step', 'BasicRestartingNonMPI', 'SpreadStepSizesBlockwiseNonMPI',
-    'StepSizeLimiter/StepSizeSlopeLimiter', 'generic_implicit + testequation0d (1 dof), BaseTransfer + TransferMesh_NoCoarse',
+    'StepSizeLimiter/StepSizeSlopeLimiter', 'controller_MPI.run/restart_block + BasicRestartingMPI + SpreadStepSizesBlockwiseMPI (8 % of the runs)', 'controller_ParaDiag_nonMPI (6 %)', 'generic_implicit + testequation0d (1 dof), BaseTransfer + TransferMesh_NoCoarse',
 ]
-COMPONENTS_STUB = ['restart requests and step-size proposals come from the script instead of an error estimator']
+COMPONENTS_STUB = ['restart requests and step-size proposals come from the script instead of an error estimator', 'mpi4py: /verif/sim/fake_mpi4py (simulated MPI, see C08)']
 ASSUMPTIONS = [
     'contiguity is judged up to 4*eps*max(|t|,1)*(P+1): the first block computes t0+sum(dt), later blocks t+dt',
     'step count compared with the smallest N with t0+N*dt >= Tend-2*eps*max(|t0|,|Tend|,1)*N',
-    'controller_MPI flavour of this property is exercised by C08',
+    'controller_MPI runs that deadlock, abort or break the message protocol are not judged here (C08 reports them)',
     'controller_ParaDiag_nonMPI (fixed step, no restarts): inside a block the start value equals the predecessor\'s end value up to 1e3*restol only (all-at-once solve), exactly across blocks',
 ]
 PROBES = ['restart_at_later_slot', 'restart_near_Tend', 'same_step_restarted_twice', 'partial_last_block', 'step_size_changed',
-          'two_steps_same_end_time', 'run_aborted_ConvergenceError', 'fixed_step_run', 'continuation_leg_on_same_controller', 'forced_stop_on_later_step', 'paradiag_run', 'steps_finish_in_different_iterations']
+          'two_steps_same_end_time', 'run_aborted_ConvergenceError', 'fixed_step_run', 'continuation_leg_on_same_controller', 'forced_stop_on_later_step', 'paradiag_run', 'steps_finish_in_different_iterations', 'controller_MPI_run']
 
 
 def plan(tier):
@@ -36,12 +41,70 @@ def plan(tier):
 
 def generate(seed, tier, index):
     r = rng_for(seed, PROP, index)
-    if r.random() < 0.06:
+    c = r.random()
+    if c < 0.06:
         return workloads.paradiag_config(r)
+    if c < 0.14:
+        return mpi_history(r)
     return workloads.history_config(r, big=(tier == 'thorough'))
 
 
+def mpi_history(r):
+    """The same kind of history for controller_MPI on the simulated MPI (1..5 time ranks, seeded schedule): fixed iteration counts,
+    restart requests and step-size proposals from the script; forced stops and convergence patterns are left to C08 (F14, F19)."""
+    from sim.checks import c08
+
+    sc = workloads.history_config(r)
+    cfg = sc['config']
+    cfg['P'] = r.randint(1, 5)
+    cfg['run'].pop('legs', None)
+    sc['faults'].pop('verdicts', None)
+    sc['faults']['force'] = []
+    span = cfg['run']['Tend'] - cfg['run']['t0']
+    cfg['run']['Tend'] = cfg['run']['t0'] + min(span, 30 * cfg['level']['dt'])
+    if cfg['P'] > 1 and not isinstance(cfg['sweeper']['params'].get('num_nodes'), list) and not cfg['controller'].get('mssdc_jac', True):
+        cfg['level']['nsweeps'] = 1  # controller_MPI refuses more than one sweep in single-level Gauss-Seidel multi-step mode
+    sc['engine'] = 'simmpi'
+    sc['S'] = 1
+    sc['max_events'] = 40000
+    sc['max_blocks'] = 120
+    sc['sched'] = c08._sched(r)
+    sc.pop('spy_stats', None)
+    return sc
+
+
+def execute_mpi(sc):
+    res, log = Result(), EventLog()
+    outcome, world, recs = simmpi.run_mpi(sc, res, log)
+    log.add('outcome', outcome)
+    res.probe('controller_MPI_run')
+    errors = [r_['error'] for r_ in recs if r_['error'] and r_['error'][0] != 'SimAbort']
+    if outcome != 'finished' or errors or world.violations:
+        # deadlocks, protocol errors and aborted runs of the MPI flavour are C08's subject (incl. its known findings); not judged here
+        res.probe('mpi_run_not_judged')
+        res['nontrivial'] = False
+        return res.finish(log)
+    tr = oracles.c06_view_of_mpi_run(recs, sc, res)
+    oracles.oracle_c06(tr, sc)
+    oracles.probes_c06(tr, sc)
+    V = lambda clause, site, detail, **ident: res.violate('C06', clause, site, detail, ident=ident)  # noqa: E731
+    acc = [a for a in tr.ctx.attempts if a.get('post') and a.get('accepted')]
+    if acc:
+        last_block = acc[-1]['block']
+        last = acc[-1]
+        for t, rec in sorted(tr.per_rank.items()):
+            if rec['nblocks'] - 1 >= last_block and t in tr.ctx.blocks[last_block]['active_slots'] and tr.ctx.blocks[last_block]['restart_at'] > 0:
+                if not oracles.same_bytes(rec.get('ret_arr'), last['uend']):
+                    V('returned_value', 'run', f'time rank {t}: returned value is not the end value of the last accepted step', rank=t)
+                    break
+    res['info']['ranks'] = sc['config']['P']
+    res['nontrivial'] = len(tr.ctx.blocks) >= 2 or any(k in res['faults'] for k in ('restart_request', 'dt_proposal'))
+    return res.finish(log)
+
+
 def execute(sc):
+    if sc.get('engine') == 'simmpi':
+        return execute_mpi(sc)
     res, log = Result(), EventLog()
     tr = blocksim.run(sc, res, log)
     for leg in tr.legs:
